@@ -155,12 +155,28 @@ def _guards(fn, pathparam):
         exist_api = None
         overwrite_ok = False
         other = []
+        # a local bound once to the ~-expanded path (destination = os.path.expanduser(filename)) stands for that expression
+        aliases = {}
+        for st in ast.walk(fn):
+            if isinstance(st, ast.Assign) and len(st.targets) == 1 and isinstance(st.targets[0], ast.Name) \
+                    and _is_expanduser_of(st.value, pathparam):
+                aliases[st.targets[0].id] = aliases.get(st.targets[0].id, 0) + 1
+        n_assign = {}
+        for st in ast.walk(fn):
+            if isinstance(st, (ast.Assign, ast.AugAssign)):
+                for t_ in (st.targets if isinstance(st, ast.Assign) else [st.target]):
+                    if isinstance(t_, ast.Name):
+                        n_assign[t_.id] = n_assign.get(t_.id, 0) + 1
+        expanded_names = {k for k, v in aliases.items() if v == 1 and n_assign.get(k) == 1}
+
+        def _expanded(e):
+            return _is_expanduser_of(e, pathparam) or (isinstance(e, ast.Name) and e.id in expanded_names)
         for a, pol in atoms:
             if isinstance(a, ast.Call) and (call_name(a) or '').split('.')[-1] in (
                     'lexists', 'exists', 'isfile') and a.args and pol and (
-                    (isinstance(a.args[0], ast.Name) and a.args[0].id == pathparam) or _is_expanduser_of(a.args[0], pathparam)):
+                    (isinstance(a.args[0], ast.Name) and a.args[0].id == pathparam) or _expanded(a.args[0])):
                 exist_api = call_name(a).split('.')[-1]
-                GUARD_EXPANDED[id(n)] = _is_expanduser_of(a.args[0], pathparam)
+                GUARD_EXPANDED[id(n)] = _expanded(a.args[0])
             elif isinstance(a, ast.Name) and a.id == 'overwrite' and not pol:
                 overwrite_ok = True
             else:
@@ -619,6 +635,10 @@ def r4(ctx):
         o_ = _Ev(m).run(ident, [_K('read'), _O('path', {}, 'filepath')], {})
         sigs = {x.rhs.v for _, v in o_.returns for x in _wt(v) if isinstance(x, _Cmp) and x.op == '==' and isinstance(x.rhs, _K)
                 and isinstance(x.rhs.v, str) and x.rhs.v.startswith('#')}
+        # ... or tests for membership in (signature, signature.encode())
+        from ..vg import Tup as _T
+        sigs |= {i_.v for _, v in o_.returns for x in _wt(v) if isinstance(x, _Cmp) and x.op == 'in' and isinstance(x.rhs, _T)
+                 for i_ in x.rhs.items if isinstance(i_, _K) and isinstance(i_.v, str) and i_.v.startswith('#')}
         ctx.need(len(sigs) == 1, ident.qualname, f'content signature not identified ({sorted(sigs)})')
         sig = sigs.pop()
         ser = m.registered('serialize', fmt)
@@ -671,7 +691,17 @@ def r4b(ctx):
             fp = Obj('str', {}, 'filepath')
             fp.typed = False
             out = ev.run(ident, [Const(meth), fp], {})
-            res[meth] = ([(show(ev.conj(pc), 400), show(v, 400)) for pc, v in out.returns], [n for _, n, _ in out.raises])
+            # `return A or B` is `if A: return True` followed by `return B` (A a truth value): the same outcomes, spelt apart
+            from ..vg import BoolT as _B, mk_not as _not
+            pairs = []
+            for pc, v in out.returns:
+                if isinstance(v, _B) and v.op == 'or' and len(v.args) == 2 and 'attr:endswith' in show(v.args[0], 400) \
+                        and 'attr:read' not in show(v.args[0], 400):
+                    pairs.append((list(pc) + [v.args[0]], Const(True)))
+                    pairs.append((list(pc) + [_not(v.args[0])], v.args[1]))
+                else:
+                    pairs.append((pc, v))
+            res[meth] = ([(show(ev.conj(pc), 400), show(v, 400)) for pc, v in pairs], [n for _, n, _ in out.raises])
         rets, raises = res['serialize']
         if raises or [v for _, v in rets] != ['False']:
             probs.append(f'for a method that is neither read nor write it returns {[v for _, v in rets]} (raises {raises}); must be False')
@@ -686,8 +716,9 @@ def r4b(ctx):
         # content branch (ds9, crtf): the signature read from the file equals the constant, as str or as bytes
         if fmt in ('ds9', 'crtf') and len(rets) > 1:
             content = rets[1][1]
-            if not re.fullmatch(r"\(\(apply\(attr:read\(.*\), \d+\) == '[^']+'\) or \(apply\(attr:read\(.*\), \d+\) == "
-                                r"apply\(attr:encode\('[^']+'\)\)\)\)", content):
+            if not (re.fullmatch(r"\(\(apply\(attr:read\(.*\), \d+\) == '[^']+'\) or \(apply\(attr:read\(.*\), \d+\) == "
+                                 r"apply\(attr:encode\('[^']+'\)\)\)\)", content)
+                    or re.fullmatch(r"\(apply\(attr:read\(.*\), \d+\) in \['[^']+', apply\(attr:encode\('[^']+'\)\)\]\)", content)):
                 probs.append(f'read: the content test is {content[:160]}; must be (signature read == constant) or (== its bytes)')
         # content branch (fits): opening the file as FITS succeeds -> True, fails with OSError -> False
         if fmt == 'fits':
